@@ -27,15 +27,33 @@ P = {
          'Trusts transmute of the repr(transparent)/repr(C) types as the observation of the hardware layout.', "3/C08"),
  "C09": (False, "stateful PBT over junk-filled simulated memory: byte diff vs predicted writes, access logs, allocation accounting", "", "", "3/C09"),
  "C10": (False, "stateful PBT: MUST/MAY freed-set model, inspection at dealloc time, idempotence", "", "", "3/C10"),
- "C11": (False, "PBT with trapped privileged instructions (user-mode trap-and-emulate): operand decode vs manuals, interval cover", "", "", "3/C11"),
- "C12": (False, "exhaustive vector/range enumeration + proptest setter programs vs independent gate decoder; trapped lidt", "", "", "3/C12"),
- "C13": (False, "PBT with simulated interrupt delivery into the real stubs; observed handler arguments and resume state", "", "", "3/C13"),
- "C14": (False, "stateful PBT (append histories x const capacities) vs Vec model; trapped lgdt", "", "", "3/C14"),
- "C15": (False, "proptest vs independent system-descriptor decoder; layout offsets", "", "", "3/C15"),
- "C16": (False, "PBT with trapped privileged instructions vs emulated register-file model; exact trap log", "", "", "3/C16"),
- "C17": (False, "generated nested-closure programs with emulated IF (trapped cli/sti/hlt + RFLAGS overlay hook)", "", "", "3/C17"),
- "C18": (False, "PBT with trapped in/out: opcode/DX/AL-AX-EAX vs device model", "", "", "3/C18"),
- "C19": (False, "exhaustive enumeration of constants vs independent manual-derived table; exhaustive/generated codec round trips", "", "", "3/C19"),
+ "C11": (True, "PBT with trapped privileged instructions (user-mode trap-and-emulate): operand decode vs manuals, interval cover",
+         'Exploration with the real privileged instructions executed and trapped: 40k flush / 40k flush_all / 40k flush_pcid cases and 12k broadcast-builder cases (~1M trapped invlpgb requests) per quick run; every operand is decoded per the Intel/AMD manuals and compared with what was asked; interval-cover oracle for range flushes. The token-names-the-changed-page half is checked over mapper histories in the C01 run.',
+         "Trusts the harness's instruction decoder and the reading of the invlpgb operand format (ECX[15:0] = additional pages). invlpgb does not exist on this CPU: it traps as #UD and is decoded from the register file.", "3/C11"),
+ "C12": (True, "exhaustive vector/range enumeration + proptest setter programs vs independent gate decoder; trapped lidt",
+         'Exhaustive for the finite parts (all 256 vectors through every access path; all 65536 (start,end) pairs x 21 range/slice forms; lidt operand) plus exploration of 30k handler-address x setter-program cases judged by an independent 16-byte gate decoder.',
+         'Trusts the gate decoder (SDM fig. 6-8) and the name->vector table typed in from the manuals.', "3/C12"),
+ "C13": (True, "PBT with simulated interrupt delivery into the real stubs; observed handler arguments and resume state",
+         'Exhaustive over all 65536 (lo,hi) installation ranges plus exploration of 120k simulated interrupt deliveries into the real x86-interrupt stubs (all 256 vectors, error codes, unaligned stack pointers, flag images) and 20k iretq round trips.',
+         "The hardware frame is built by harness assembly in ring 3: CS/SS are fixed to the process's selectors and privileged flag bits are excluded; diverging vectors 8/18 are left by a stack switch.", "3/C13"),
+ "C14": (True, "stateful PBT (append histories x const capacities) vs Vec model; trapped lgdt",
+         'Exploration: 40k append histories over the six monomorphised capacities (1,2,3,8,9,8192) and 20k raw-slice constructions, judged by a Vec model, the selector formula and the trapped lgdt operand.',
+         'Capacities are the listed const parameters, not all usize.', "3/C14"),
+ "C15": (True, "proptest vs independent system-descriptor decoder; layout offsets",
+         'Exploration of 200k TSS addresses through an independent system-descriptor decoder, plus complete enumeration of the six presets and of both structure layouts.',
+         'Trusts the decoder written from SDM fig. 8-4 and the layout offsets from SDM fig. 8-11.', "3/C15"),
+ "C16": (True, "PBT with trapped privileged instructions vs emulated register-file model; exact trap log",
+         "Exploration with every wrapper's real inline assembly executed and trapped: ~320k (prior content, argument, operation) cases per quick run over Cr0/2/3/4, Dr0-3/6/7, XCr0, Msr, Efer, Fs/Gs/KernelGs base, Star, LStar, SFMask, UCet, SCet, Pat, ApicBase, segment registers and bases, load_tss, mxcsr, rflags; the oracle is an emulated register-file model with register numbers/MSR indices/modelled-bit masks typed in from the manuals.",
+         'Trusts the instruction decoder and the per-wrapper sound prior domains listed in the evidence assumptions; segment loads only with selectors that fault under Linux; XCR0/RFLAGS.IF via hooks H4/H2.', "3/C16"),
+ "C17": (True, "generated nested-closure programs with emulated IF (trapped cli/sti/hlt + RFLAGS overlay hook)",
+         'Exploration in both build profiles: 40k generated nested-closure programs per profile run through the real without_interrupts with cli/sti/hlt trapped and IF emulated (hook H2 makes the IF=0 branch reachable); both initial IF states of enable_and_hlt enumerated, adjacency of sti and hlt checked on the trapped instruction addresses.',
+         "'No interrupt window' is decided as adjacency in the instruction stream; interrupts are not injected.", "3/C17"),
+ "C18": (True, "PBT with trapped in/out: opcode/DX/AL-AX-EAX vs device model",
+         'Exploration in both build profiles (120k accesses per profile over all widths, access kinds, edge-biased ports, values and device replies); the thorough tier enumerates all 65536 ports x 3 widths x 3 access kinds.',
+         "Trusts the opcode map used by the decoder (EC/ED/EE/EF, 66 prefix); 'without touching memory' is decided by the instruction form (DX form, not ins/outs).", "3/C18"),
+ "C19": (True, "exhaustive enumeration of constants vs independent manual-derived table; exhaustive/generated codec round trips",
+         'Complete enumeration on every run of all named constants (14 bitflags types via iter_names, MSR numbers, vectors, sizes, PAT, resets) against an independently typed manual table, all u16/u8 codec inputs exhaustively, and 100k generated DR7 / selector-error-code cases.',
+         'The manual table itself is the trusted base (typed from the SDM/APM); a crate constant without a table row is reported as a label in the evidence.', "3/C19"),
  "C20": (False, "PBT on software MMU: constructor truth table; index-repetition formula for all 512 indices via hook", "", "", "3/C20"),
 }
 
